@@ -126,8 +126,21 @@ def run(ctx):
         pairs = [(s, o) for s, o in zip(srcs, obs) if "ssa" in o and literals_in_range(s)]
         res = proplib.model_annotations([o["ssa"] for s, o in pairs], [p] * len(pairs))
         pc = vlib.run_model(["phicomplete " + vlib.sexp(o["ssa"]) for s, o in pairs])
-        for (src, o), (fv, fd, anns), phic in zip(pairs, res, pc):
+        ph = vlib.run_model(["pathhyps " + vlib.sexp(o["ssa"]) for s, o in pairs])
+        for (src, o), (fv, fd, anns), phic, hyp in zip(pairs, res, pc, ph):
             stats["SSA CFGs x primes"] += 1
+            # hypotheses of the path-level theorem C06_path_sound, evaluated on the real dump
+            if hyp.startswith("singledef"):
+                stats["CFGs meeting SingleDef (C06_path_sound applies)"] += 1
+                if not phic.startswith("incomplete"):
+                    stats["CFGs meeting SingleDef and PhiComplete"] += 1
+            else:
+                versioned = [t for t in hyp.split()[1:] if "." in t]
+                stats["CFGs with a variable assigned by several substitutions (signals/components: outside the path theorem)"] += 1
+                if versioned:
+                    # a versioned (SSA) local with two definitions: clause (a) of C14 is broken
+                    ctx.violation("ssa-local-defined-twice", {"stage": "hypothesis SingleDef of C06_path_sound on a real SSA dump",
+                                                              "source": src, "curve": curve, "variables": versioned})
             ssa = o["ssa"]
             real = proplib.flatten_cfg(ssa)
             if [a.split("/")[0] for a in real] != [a.split("/")[0] for a in anns]:
